@@ -55,6 +55,19 @@ fn exec(m: &mut Mon, op: &str, a: &[Arg]) {
             let mut out = acc.clone();
             m.must_panic(|| alg::addmul_n(&mut out, x, y), "lengths differ");
         }
+        "adc_sbb_short_rhs" => {
+            // `rhs` shorter than `lhs`: no contract on the result (today: a bounds-check panic after the covered
+            // limbs). What the safe functions may never do is touch memory outside the two slices: the native
+            // lanes only require that the process survives, the interpreter / sanitizer lanes see every access.
+            let (acc, x, c) = (a[0].u().to_vec(), a[1].u(), a[2].n() as u64);
+            assert!(x.len() < acc.len(), "harness: rhs is not shorter");
+            m.nontrivial(true);
+            let mut out = acc.clone();
+            let r1 = m.call(|| alg::adc_n(&mut out, x, c)).is_err();
+            let mut out = acc.clone();
+            let r2 = m.call(|| alg::sbb_n(&mut out, x, c)).is_err();
+            m.note_add("adc_sbb_short_rhs.panicked", u64::from(r1) + u64::from(r2));
+        }
         "mul_nx1" => {
             let (acc, k) = (a[0].u().to_vec(), a[1].n() as u64);
             let exact = big::big(&acc) * BigUint::from(k);
@@ -254,6 +267,11 @@ fn workload(m: &mut Mon) {
             m.case("addmul_nx1", 64 * n, vec![au(&acc), au(&x), Arg::N(k.into())]);
             m.case("submul_nx1", 64 * n, vec![au(&acc), au(&x), Arg::N(k.into())]);
             m.case("add_nx1", 64 * n, vec![au(&acc), Arg::N(k.into())]);
+            if n > 0 && r.chance(1, 8) {
+                let sl = r.below(n);
+                let short = gen::slice(&mut r, sl);
+                m.case("adc_sbb_short_rhs", 64 * n, vec![au(&acc), au(&short), Arg::N(cin.into())]);
+            }
             m.case("adc_n", 64 * n, vec![au(&acc), au(&x), Arg::N(cin.into())]);
             m.case("sbb_n", 64 * n, vec![au(&acc), au(&x), Arg::N(cin.into())]);
             // compare: equal, differing in one limb, hostile
